@@ -21,7 +21,11 @@ func TestC15Table(t *testing.T) {
 	defer em.Close()
 	wd, _ := os.Getwd()
 	tool := filepath.Join(filepath.Dir(wd), "tools", "locksets")
-	cmd := exec.Command("go1.26.8", "run", ".", "-repo", "/repo")
+	repo := os.Getenv("VERIF_REPO") // the tree under test (./check sets it; a scratch worktree in mutant trials)
+	if repo == "" {
+		repo = "/repo"
+	}
+	cmd := exec.Command("go1.26.8", "run", ".", "-repo", repo)
 	cmd.Dir = tool
 	cmd.Env = append(os.Environ(), "GOFLAGS=-mod=mod", "GOPROXY=off", "GOSUMDB=off", "GOTOOLCHAIN=local")
 	var stderr bytes.Buffer
